@@ -128,10 +128,14 @@ Proof.
   os_inv H; simpl; rewrite ?upd_same; auto.
 Qed.
 
+Definition lockable (f : option fdesc) : bool :=
+  match f with Some fd => acc_readable (fd_acc fd) || acc_writable (fd_acc fd) | None => false end.
+
 Lemma os_flock_req i c how k s eintr flt :
   flock_req_of how = FReq k -> isopen (fds s c) = true ->
   os_step i c (OFlock how) flt eintr s =
-    if can_grant k c (ltab s i)
+    if negb (lockable (fds s c)) then Some (RErr, s)
+    else if can_grant k c (ltab s i)
     then Some (ROk, {| files := files s; fds := fds s; refs := refs s;
                        ltab := upd (ltab s) i ((c, k) :: drop c (ltab s i)) |})
     else if eintr then Some (REintr, s) else None.
@@ -232,6 +236,8 @@ Proof.
   - (* flock *)
     unfold lock_stage, flock_step. simpl.
     rewrite (os_flock_req _ _ _ m _ _ _ Hreq Ho).
+    destruct (negb (lockable _)).
+    { simpl. rewrite !upd_same, Ho, <- Hl, <- Hs. apply ph_close. discriminate. }
     destruct (can_grant m c _).
     + simpl. rewrite !upd_same, Ho, locked_cons_same, <- Hs. now apply ph_trunc.
     + destruct eintr; simpl.
